@@ -7,6 +7,7 @@ package main
 import (
 	"bytes"
 	"context"
+	"encoding/json"
 	"fmt"
 	"os"
 	"os/exec"
@@ -23,9 +24,10 @@ import (
 
 type hostile struct {
 	name   string // class suffix
-	format string // "13.2" | "legacy"
+	format string // "13.2" | "legacy" | "current"
 	kind   string
 	n      int
+	memKB  int // address space limit of the child (0: the parent's)
 }
 
 // one template, nested n deep, in the expression syntax of the format
@@ -50,6 +52,14 @@ func nestedTemplate(format, kind string, n int) string {
 }
 
 func hostileDefinition(h hostile) []byte {
+	if h.kind == "airtime" {
+		// an amount that is 11 characters of JSON and gigabytes when written in plain notation
+		amt := fmt.Sprintf("1e-%d", h.n)
+		if h.format == "legacy" {
+			return []byte(`{"base_language":"eng","flow_type":"M","action_sets":[],"rule_sets":[{"uuid":"3dcccbb4-d29c-41dd-a01f-16d814c9ab82","x":0,"y":0,"ruleset_type":"airtime","label":"Transfer","operand":"@step.value","rules":[{"uuid":"c072ecb5-0686-40ea-8ed3-898dc1349783","test":{"type":"airtime_status","exit_status":"success"},"category":{"eng":"Success"},"destination":null},{"uuid":"c072ecb5-0686-40ea-8ed3-898dc1349784","test":{"type":"airtime_status","exit_status":"failed"},"category":{"eng":"Failure"},"destination":null}],"config":{"RW":{"country_name":"Rwanda","currency_code":"RWF","amount":` + amt + `}}}],"metadata":{"uuid":"50c3706e-fedb-42c0-8eab-dda3335714b7","name":"T"}}`)
+		}
+		return []byte(`{"uuid":"25a2d8b2-ae7c-4fed-964a-506fb8c3f0c0","name":"T","spec_version":"` + definition.CurrentSpecVersion.String() + `","language":"eng","type":"messaging","nodes":[{"uuid":"32bc60ad-5c86-465e-a6b8-049c44ecce49","actions":[{"uuid":"9d9290a7-3713-4c22-8821-4af0a64c0821","type":"transfer_airtime","amounts":{"USD":` + amt + `},"result_name":"Transfer"}],"exits":[{"uuid":"2d481ce6-efcf-4898-a825-f76208e32f2a"}]}]}`)
+	}
 	t := nestedTemplate(h.format, h.kind, h.n)
 	q := strconv.Quote(t)
 	if h.format == "legacy" {
@@ -59,14 +69,18 @@ func hostileDefinition(h hostile) []byte {
 }
 
 var hostiles = []hostile{
-	{"deeply-nested-expression:13.x:paren", "13.2", "paren", 1000000},
-	{"deeply-nested-expression:13.x:call", "13.2", "call", 1000000},
-	{"deeply-nested-expression:13.x:index", "13.2", "index", 1000000},
-	{"deeply-nested-expression:13.x:minus", "13.2", "minus", 2000000},
-	{"deeply-nested-expression:13.x:lambda", "13.2", "lambda", 1000000},
-	{"deeply-nested-expression:legacy:paren", "legacy", "paren", 1000000},
-	{"deeply-nested-expression:legacy:call", "legacy", "call", 1000000},
-	{"deeply-nested-expression:legacy:minus", "legacy", "minus", 2000000},
+	{"deeply-nested-expression:13.x:paren", "13.2", "paren", 1000000, 0},
+	{"deeply-nested-expression:13.x:call", "13.2", "call", 1000000, 0},
+	{"deeply-nested-expression:13.x:index", "13.2", "index", 1000000, 0},
+	{"deeply-nested-expression:13.x:minus", "13.2", "minus", 2000000, 0},
+	{"deeply-nested-expression:13.x:lambda", "13.2", "lambda", 1000000, 0},
+	{"deeply-nested-expression:legacy:paren", "legacy", "paren", 1000000, 0},
+	{"deeply-nested-expression:legacy:call", "legacy", "call", 1000000, 0},
+	{"deeply-nested-expression:legacy:minus", "legacy", "minus", 2000000, 0},
+	// written out, 1e-2000000000 needs 2 GB: with 4 GB of address space the process is killed ("out of memory" is
+	// fatal, not a panic); with more it computes for minutes
+	{"airtime-amount-exponent:legacy", "legacy", "airtime", 2000000000, 4000000},
+	{"airtime-amount-exponent:current", "current", "airtime", 2000000000, 4000000},
 }
 
 // childMain: what the re-executed binary does
@@ -79,8 +93,14 @@ func childMain(spec string) {
 		fmt.Println("rejected-by-migrate")
 		return
 	}
-	if _, err := definition.ReadFlow(out, nil); err != nil {
+	f, err := definition.ReadFlow(out, nil)
+	if err != nil {
 		fmt.Println("rejected-by-reader")
+		return
+	}
+	// "reading a current definition and marshalling it back"
+	if _, err := json.Marshal(f); err != nil {
+		fmt.Println("marshal-error")
 		return
 	}
 	fmt.Println("accepted")
@@ -110,6 +130,9 @@ func runHostile(d *driver) {
 			ctx, cancel := context.WithTimeout(context.Background(), 240*time.Second)
 			defer cancel()
 			cmd := exec.CommandContext(ctx, exe)
+			if h.memKB > 0 {
+				cmd = exec.CommandContext(ctx, "bash", "-c", fmt.Sprintf("ulimit -v %d; exec \"$0\"", h.memKB), exe)
+			}
 			cmd.Env = append(os.Environ(), fmt.Sprintf("C16_CHILD=%s,%s,%d", h.format, h.kind, h.n))
 			var buf bytes.Buffer
 			cmd.Stdout, cmd.Stderr = &buf, &buf
@@ -126,6 +149,9 @@ func runHostile(d *driver) {
 		d.res.OracleChecks++
 		input := map[string]any{"stream": "hostile", "format": r.h.format, "template": fmt.Sprintf("%s nested %d deep", r.h.kind, r.h.n),
 			"how_to_build": "nestedTemplate(" + r.h.format + ", " + r.h.kind + ", " + strconv.Itoa(r.h.n) + ") as the text of a send_msg (13.2) / the msg of a reply action (legacy)"}
+		if r.h.kind == "airtime" {
+			input = map[string]any{"stream": "hostile", "format": r.h.format, "definition": string(hostileDefinition(r.h)), "child_address_space_kb": r.h.memKB}
+		}
 		switch {
 		case r.stalled:
 			// no bound on time in the statement: noted, not a failure
